@@ -24,7 +24,7 @@ NOQUARANTINE = {'ASAN_OPTIONS': 'quarantine_size_mb=0:thread_local_quarantine_si
 
 # recycled CLASS objects (a run-time class deleted, a differently named class allocated at its address): answered from the
 # address memo of the dead class on the tree without proposed/C08-recycled-class-memo.patch - switch on once it is applied
-RECYCLED_CLASSES = []        # ['classes=1']
+RECYCLED_CLASSES = ['classes=1']   # judged since fix 963e8ad
 
 SEQUENTIAL = {
   'quick': (
